@@ -244,9 +244,10 @@ def build(S):
         S.contract("calc_curvature[nonorthogonal]", FN, make_run(False, ("centre", "ylow")), replay=replay(False), shape="1x1 per location, centre+ylow")
         S.contract("calc_curvature[refusals]", FN, run_refuses, shape="-")
         S.contract("calc_curvature[x-y form]", FN, run_xy_form, shape="one point, DDX/DDY stubbed")
-        from . import C18_dct
+        from . import C06, C18_dct
 
         C18_dct.add(S)  # the DCT interpolant's second derivatives feed the curvature
+        C06.add_ddy(S)  # DDY / DDX (C06) are what the x-y form differentiates with
 
 
 def post(S):
